@@ -25,4 +25,8 @@ def isReady (numResults numSown : Int) : Bool := decide (numResults > 0) && deci
 def cleanUpDefault (cleanUpIsNone cleanUp allowIncomplete : Bool) : Bool :=
   if cleanUpIsNone then !allowIncomplete else cleanUp
 
+-- cropping.py : reap_harvest / reap_samples pass clean_up=False down and delete only after the farmer's sync
+def harvestDefersCleanup : Bool := true
+def samplesDefersCleanup : Bool := true
+
 end Gen.Default
